@@ -384,8 +384,14 @@ pub fn run(rec: &mut Recorder, w: &mut World, tier: &str, seed: u64) {
     let n_scen = (if thorough { 12 } else { 3 }) * rec.budget as usize;
     let thread_counts: Vec<usize> = if thorough { vec![2, 4, 8, 16] } else { vec![2, 8] };
     for name in ["rbac", "domains", "keymatch2", "abac"] {
-        let k = match ks.iter().find(|k| k.name == name) { Some(k) => k.clone(), None => continue };
+        let k0 = match ks.iter().find(|k| k.name == name) { Some(k) => k.clone(), None => continue };
         for si in 0..n_scen {
+            // every other role-based scenario uses short names whose concatenations coincide ("a"+"bc" = "ab"+"c") and the
+            // empty string as a name: distinct (user, role) pairs that a careless key would conflate
+            let short = si % 2 == 1 && (name == "rbac" || name == "domains");
+            let ren: Vec<(String, String)> = [("alice", "a"), ("bob", "ab"), ("admin", "bc"), ("staff", if si % 4 == 1 { "c" } else { "" })].iter().map(|(a, c)| (a.to_string(), c.to_string())).collect();
+            let k = if short { rec.count("names:colliding-concatenations"); rename_kind(&k0, &ren, false) } else { k0.clone() };
+            let users: Vec<String> = if short { sv(&["a", "ab", "bc"]) } else { sv(&["alice", "bob", "admin"]) };
             for cached in [false, true] {
                 // ---- serial oracle (recorded: the Lean model answers the same lines) ----
                 let m = model_of(&k, E_ALLOW, false, "", false);
@@ -426,7 +432,7 @@ pub fn run(rec: &mut Recorder, w: &mut World, tier: &str, seed: u64) {
                 // ---- concurrent runs (implementation only) ----
                 let base = Scenario { what: format!("{}{}", name, if cached { "+cached" } else { "" }), setup, history, reqs: req_strs, rows, perms, irows,
                     threads: 2, rounds: if thorough { 30 } else { 10 }, seed: rng.next(), writer: false, handle: "none".into(), helpers: false, rendezvous: false,
-                    users: sv(&["alice", "bob", "admin"]), watchdog_ms: 20000, ctx: None, ctx_rows: vec![] };
+                    users: users.clone(), watchdog_ms: 20000, ctx: None, ctx_rows: vec![] };
                 let mut variants: Vec<Scenario> = vec![];
                 let th = thread_counts[si % thread_counts.len()];
                 variants.push(Scenario { threads: th, ..base.clone() });                                                       // readers only
